@@ -356,13 +356,118 @@ def e_edit_extends(d, r, lit):
     return f"structure:{k}"
 
 
+TYPE_DEFS = ("BaseType", "ReferenceType", "ArrayType", "MapType", "AndType", "OrType", "TupleType", "StructureLiteralType", "StringLiteralType")
+_REF_FOR_WALK: List[Any] = []
+
+
+def e_mutate_type_node(d, r, lit):
+    """Minimal structural mutation of ONE type node somewhere in the document (a single field of a
+    single node changes): what a forgotten field in a hand-written __eq__ would miss."""
+    ref = _REF_FOR_WALK[0] if _REF_FOR_WALK else None
+    if ref is None:
+        return e_edit_alias(d, r, lit)
+    nodes = [(p, n, x) for p, n, x in ref.walk(d) if n in TYPE_DEFS or n in ("EnumerationType", "EnumerationEntry", "Enumeration", "Structure")]
+    if not nodes:
+        return e_add_alias(d, r, lit)
+    for _ in range(8):
+        p, n, x = r.choice(nodes)
+        if n == "BaseType":
+            x["name"] = r.choice([b for b in BASE_NAMES if b != x["name"]])
+            return "mutate:base.name"
+        if n == "ReferenceType":
+            x["name"] = x["name"] + "X"
+            return "mutate:reference.name"
+        if n == "StringLiteralType":
+            x["value"] = x["value"] + "x"
+            return "mutate:stringLiteral.value"
+        if n == "ArrayType":
+            x["element"] = {"kind": "array", "element": x["element"]} if r.random() < 0.5 else {"kind": "base", "name": "string"}
+            return "mutate:array.element"
+        if n == "MapType":
+            if r.random() < 0.6:
+                k = x["key"]
+                if k.get("kind") == "base":
+                    k["name"] = r.choice([b for b in MAPKEY_NAMES if b != k["name"]])
+                else:
+                    x["key"] = {"kind": "base", "name": "string"}
+                return "mutate:map.key"
+            x["value"] = {"kind": "base", "name": "boolean"} if x["value"] != {"kind": "base", "name": "boolean"} else {"kind": "base", "name": "string"}
+            return "mutate:map.value"
+        if n in ("AndType", "OrType", "TupleType"):
+            it = x["items"]
+            if len(it) >= 2 and it[0] != it[-1] and r.random() < 0.6:
+                it[0], it[-1] = it[-1], it[0]
+                return f"mutate:{n}.items-order"
+            if it and r.random() < 0.5:
+                it.pop(r.randrange(len(it)))
+                return f"mutate:{n}.items-remove"
+            it.append({"kind": "base", "name": "null"})
+            return f"mutate:{n}.items-add"
+        if n == "StructureLiteralType":
+            props = x["value"]["properties"]
+            if props and r.random() < 0.5:
+                props.reverse()
+                if len(props) >= 2 and props[0] != props[-1]:
+                    return "mutate:literal.properties-order"
+            props.append({"name": "zz" + str(r.randrange(100)), "type": {"kind": "base", "name": "string"}})
+            return "mutate:literal.properties-add"
+        if n == "Enumeration":
+            # value type flip: only the type changes (integer <-> uinteger), or type and look-alike
+            # values together ("1" <-> 1)
+            kind = x["type"]["name"]
+            if kind in ("integer", "uinteger") and r.random() < 0.6:
+                x["type"]["name"] = "uinteger" if kind == "integer" else "integer"
+                return "mutate:enum.type int<->uint"
+            if kind == "string" and x["values"] and all(isinstance(v["value"], str) and v["value"].isdigit() for v in x["values"]):
+                x["type"]["name"] = "integer"
+                for v in x["values"]:
+                    v["value"] = int(v["value"])
+                return "mutate:enum.type string->integer"
+            if kind != "string" and x["values"] and all(isinstance(v["value"], int) for v in x["values"]):
+                x["type"]["name"] = "string"
+                for v in x["values"]:
+                    v["value"] = str(v["value"])
+                return "mutate:enum.type integer->string"
+            if kind == "string" and not x["values"]:
+                x["type"]["name"] = "integer"
+                return "mutate:enum.type of empty enum"
+        if n == "Structure" and (x.get("extends") or x.get("mixins")):
+            # move one entry between extends and mixins
+            src = "extends" if x.get("extends") else "mixins"
+            dst = "mixins" if src == "extends" else "extends"
+            x.setdefault(dst, []).append(x[src].pop())
+            return f"mutate:structure.{src}->{dst}"
+    return e_edit_alias(d, r, lit)
+
+
+def e_big_enum_value(d, r, lit):
+    if not d["enumerations"]:
+        return e_add_enum(d, r, lit)
+    ints = [e for e in d["enumerations"] if e["type"]["name"] != "string"]
+    if not ints:
+        return e_add_enum(d, r, lit)
+    e = r.choice(ints)
+    e["values"].append({"name": _fresh(r, "Big"), "value": r.choice([2**31 - 1, 2**40, 0, 1]) if e["type"]["name"] != "integer" else r.choice([-(2**31), 2**53, -1, 0])})
+    return "enum:big_value"
+
+
+def e_params_array(d, r, lit):
+    sec = r.choice(["requests", "notifications"])
+    if not d[sec]:
+        return e_add_request(d, r, lit)
+    q = r.choice(d[sec])
+    q["params"] = [rand_type(r, decl_names(d), 2, False) for _ in range(r.randint(0, 3))]
+    return f"message:{sec}.params-array"
+
+
 def e_metadata(d, r, lit):
     d["metaData"]["version"] = d["metaData"]["version"] + ".1"
     return "metadata:version"
 
 
 STRUCTURAL_EDITS = [e_add_structure, e_add_enum, e_add_alias, e_add_request, e_add_notification, e_remove_decl, e_reorder,
-                    e_edit_property, e_edit_property, e_edit_message, e_edit_message, e_edit_enum, e_edit_alias, e_edit_extends, e_metadata]
+                    e_edit_property, e_edit_property, e_edit_message, e_edit_message, e_edit_enum, e_edit_alias, e_edit_extends, e_metadata,
+                    e_mutate_type_node, e_mutate_type_node, e_mutate_type_node, e_mutate_type_node, e_big_enum_value, e_params_array]
 
 
 def annotate_only(d: Dict[str, Any], r: random.Random, ref: Ref) -> str:
